@@ -1594,8 +1594,14 @@ class ModelBuilder:
                                 delta = timedelta(minutes=num)
                             elif unit == "d":
                                 delta = timedelta(days=num)
+                            elif unit == "w":
+                                delta = timedelta(weeks=num)
+                            elif unit == "m":
+                                delta = timedelta(days=num * 365 / 12)
+                            elif unit == "y":
+                                delta = timedelta(days=num * 365)
                             else:
-                                delta = timedelta(hours=num)
+                                raise ValueError(f"Unknown duration unit in booking: {duration_str!r}")
                         else:
                             delta = timedelta(hours=0)
 
